@@ -3,6 +3,7 @@ package props
 import (
 	"fmt"
 	"sort"
+	"strings"
 
 	"github.com/go-task/task/v3/zverif/vlab"
 )
@@ -241,6 +242,12 @@ func c07Units(tier string) []*Unit {
 		"cycle-2-deps-once":          {Tasks: []*T{{Name: "root", Deps: []Ref{{Task: "a", VP: "@"}}, Cmds: []C{P()}}, {Name: "a", Run: "once", Deps: []Ref{{Task: "b", VP: "@"}}}, {Name: "b", Run: "once", Deps: []Ref{{Task: "a", VP: "@"}}}}},
 		"cycle-2-calls-when-changed": {Tasks: []*T{{Name: "root", Cmds: []C{{Call: &Ref{Task: "a", VP: "@"}}}}, {Name: "a", Run: "when_changed", Cmds: []C{{Call: &Ref{Task: "b", VP: "@"}}}}, {Name: "b", Run: "when_changed", Cmds: []C{{Call: &Ref{Task: "a", VP: "@"}}}}}},
 		"cycle-2-calls":              {Tasks: []*T{{Name: "root", Cmds: []C{{Call: &Ref{Task: "a", VP: "@"}}}}, {Name: "a", Cmds: []C{{Call: &Ref{Task: "root", VP: "@"}}}}}},
+		// the cycle closes through a deferred task call (errors of deferred commands are ignored, so
+		// only termination is required of these)
+		"cycle-deferred-self-call-once": {Tasks: []*T{{Name: "root", Run: "once", Cmds: []C{{Defer: true, Call: &Ref{Task: "root", VP: "@"}}, P()}}}},
+		"cycle-deferred-2-calls-once": {Tasks: []*T{{Name: "root", Cmds: []C{{Call: &Ref{Task: "a", VP: "@"}}}},
+			{Name: "a", Run: "once", Cmds: []C{{Defer: true, Call: &Ref{Task: "b", VP: "@"}}, P()}}, {Name: "b", Run: "once", Cmds: []C{{Call: &Ref{Task: "a", VP: "@"}}}}}},
+		"cycle-deferred-self-call": {Tasks: []*T{{Name: "root", Cmds: []C{{Defer: true, Call: &Ref{Task: "root", VP: "@"}}, P()}}}},
 	}
 	// a cycle through a wildcard task whose match changes on every round
 	for _, n := range []int{0, 1} {
@@ -300,7 +307,7 @@ func c07Units(tier string) []*Unit {
 				if x.Res.Horizon {
 					return append(out, vlab.V("C07", "no_termination_within_horizon", "cycle", "cyclic reference did not end within the step horizon"))
 				}
-				if x.Code != 204 && x.Code != 201 {
+				if x.Code != 204 && x.Code != 201 && !strings.HasPrefix(name, "cycle-deferred") {
 					out = append(out, vlab.V("C07", "cycle_status", fmt.Sprintf("got%d", x.Code), fmt.Sprintf("cyclic reference ended with status %d (%s), expected 204 or 201", x.Code, firstN(x.ErrStr, 120))))
 				}
 				return out
